@@ -187,27 +187,33 @@ def _settled(ctx: Ctx, c: Collector) -> None:
 
 
 def _bounded_target(tgt: Optional[Term], heap: Term, h0: Term, U: Term) -> Optional[str]:
+    """Decide the awaited time by cases on the emptiness of the heap (conditional expression, if/else
+    and min() over conditionally present elements are the same thing): with queued steps it must be
+    min(earliest step, end), without it must be the end."""
     if tgt is None:
         return None
-    def is_min_h0_U(t: Term) -> bool:
-        return t[0] == "agg" and t[1] == "min" and sorted(repr(x[1]) for x in t[2][1] if not x[2] and not x[3]) == sorted([repr(h0), repr(U)]) and len(t[2][1]) == 2
-    if tgt[0] == "ifexp" and tgt[1] == heap:
-        if tgt[3] != U:
-            return "empty-wrong"
-        if tgt[2] == h0:
-            return "unbounded"
-        if is_min_h0_U(tgt[2]):
-            return "ok"
+    from .. import boolfn
+    leaf, pol = boolfn.canon_leaf(heap)
+
+    def val(nonempty: bool):
+        a = {leaf: nonempty == pol}
+        v = T.strip(boolfn.resolve_phi(tgt, a))
+        if v[0] == "agg" and v[1] == "min" and not v[3]:
+            els = [x for x in v[2][1] if not x[3] and all(boolfn.eval_leaves(g[1], a) == g[2] for g in x[2])]
+            if any(x[3] for x in v[2][1]):
+                raise boolfn.NotBoolean("iterated element")
+            return sorted({repr(T.strip(x[1])) for x in els})
+        return [repr(v)]
+    try:
+        ne, em = val(True), val(False)
+    except boolfn.NotBoolean:
         return None
-    if tgt[0] == "agg" and tgt[1] == "min":
-        els = tgt[2][1]
-        has_u = any(x[1] == U and not x[2] and not x[3] for x in els)
-        has_h = any(x[1] == h0 and [T.guard_term(g) for g in x[2]] == [heap] and not x[3] for x in els)
-        if has_u and has_h and len(els) == 2:
-            return "ok"
-        return None
-    if tgt == U:
-        return None
+    if em != [repr(U)]:
+        return "empty-wrong" if ne in ([repr(h0)], sorted([repr(h0), repr(U)])) else None
+    if ne == [repr(h0)]:
+        return "unbounded"
+    if ne == sorted([repr(h0), repr(U)]):
+        return "ok"
     return None
 
 
